@@ -334,6 +334,58 @@ pub fn run(tier: Tier) -> i32 {
             rep.violation(Violation { signature: "drift:input-change-undetected".into(), description: d, replay: json!({}) });
         }
     }
+    // input drift in the ALPIDE statistics (stave mode): the readout flags of ONE chip trailer change - each of the four
+    // flag bits alone and the three documented combinations (busy violation 1000, data overrun 1100, transmission in
+    // fatal 1110) - the old statistics file no longer matches
+    {
+        use fp_model::alpide::{self, Chip};
+        use fp_model::grammar::{Ev, HbfShape, LinkCfg, PageShape};
+        let cfg = LinkCfg::ib(0, 4);
+        let stream_with = |flag: u8| -> Vec<u8> {
+            let frame = |bc: u8, f: u8| -> Vec<fp_model::words::Word> {
+                let lanes: Vec<Vec<fp_model::words::Word>> = cfg
+                    .lanes
+                    .iter()
+                    .enumerate()
+                    .map(|(i, id)| {
+                        let chip = Chip { id: fp_model::words::ib_lane(*id), bc, empty: false, hits: vec![alpide::hit_alphabet()[0]], flags: if i == 1 { f } else { 0 }, pad_before: 0 };
+                        alpide::lane_words(*id, &alpide::lane_bytes(&[chip]))
+                    })
+                    .collect();
+                alpide::interleave_lanes(&lanes)
+            };
+            let hbfs: Vec<HbfShape> = (0..3u8).map(|h| HbfShape { pages: vec![PageShape { cont: None, evs: vec![Ev::Data { words: frame(0x10 + h, if h == 1 { flag } else { 0 }), cdw: false, done: true }] }] }).collect();
+            let pk = grammar::render_link(&cfg, &hbfs);
+            grammar::contiguous(&[pk]).bytes()
+        };
+        let a = stream_with(0);
+        let flags: Vec<u8> = vec![0b0001, 0b0010, 0b0100, 0b1000, 0b1100, 0b1110, 0b0110, 0b0011];
+        let fres = par_map(&flags, |_, f| {
+            let b = stream_with(*f);
+            let scratch = Scratch::new("c15f");
+            let statp = scratch.join("a.json");
+            let mode = ["check", "all", "its-stave"];
+            let r1 = run_tool(&scratch, &a, &mode, &["-S".into(), statp.display().to_string(), "-D".into(), "json".into()]);
+            if r1.crashed() || r1.status != Some(0) {
+                return Some(format!("writing run on the flag-free stream: exit {:?}", r1.status));
+            }
+            let r0 = run_tool(&scratch, &a, &mode, &["-E".into(), "9".into(), "-i".into(), statp.display().to_string()]);
+            if mismatch_reported(&r0) || r0.status != Some(0) {
+                return Some(format!("the unchanged stream does not match its own statistics (exit {:?})", r0.status));
+            }
+            let r2 = run_tool(&scratch, &b, &mode, &["-E".into(), "9".into(), "-i".into(), statp.display().to_string()]);
+            if !mismatch_reported(&r2) || r2.status != Some(9) {
+                return Some(format!("one chip trailer got the readout flags {f:#06b}, but the old statistics file is accepted (exit {:?})", r2.status));
+            }
+            None
+        });
+        for r in fres {
+            drift_cases += 1;
+            if let Some(d) = r {
+                rep.violation(Violation { signature: "drift:input-change-undetected:alpide-readout-flags".into(), description: d, replay: json!({}) });
+            }
+        }
+    }
     let leaf_runs: u64 = 60 * evaluations;
     rep.cov("evaluations", json!(evaluations + drift_cases));
     rep.cov("distinct_nontrivial", json!(jobs.iter().filter(|j| !j.label.ends_with("clean")).count() as u64 + drift_cases));
